@@ -96,7 +96,9 @@ func runC08(c *ev.Ctx) {
 		icfg := cons.InstCfg{Index: cons.IndexCfg(i % 3), ReuseVals: i%2 == 0}
 		A := cons.NewInst(cfg.Plans[0].Epoch, cfg.Plans[0].Validators(), policy, icfg)
 		B := cons.NewInst(cfg.Plans[0].Epoch, cfg.Plans[0].Validators(), policy, icfg)
-		desc := func() map[string]interface{} { return map[string]interface{}{"case": i, "dag": describeDAG(d), "stream_len": len(stream)} }
+		desc := func() map[string]interface{} {
+			return map[string]interface{}{"case": i, "dag": describeDAG(d), "stream_len": len(stream)}
+		}
 		step := func(in *cons.Inst, it item) (c08obs, bool) {
 			if in.Epoch() != it.epoch {
 				return c08obs{}, false // left-over event of a sealed epoch: dropped by the driver
